@@ -84,7 +84,7 @@ Proof.
   destruct w as [e s]. destruct ev as [e'|b|spls]; cbn [step fst snd].
   - apply fire_msg.
   - pose proof (parse_buffer s e b) as H. destruct (parse ops orc cf s e b). exact H.
-  - reflexivity.
+  - unfold refresh. destruct (refresh_all ops e (c_servos cf) (s_servos s) spls). reflexivity.
 Qed.
 
 Lemma step_completes w ev :
@@ -239,10 +239,10 @@ Proof.
 Qed.
 
 (* ---- C05: refused writes; offsets ---------------------------------------------------------------------- *)
-Theorem refused_same_future s e b s' : replies_distinct cf = true ->
+Theorem refused_same_future s e b s' : pt_law ops cf -> replies_distinct cf = true ->
   parse ops orc cf s e b = (s', OReply (c_bad cf ++ crlf)) -> s' = set_msg s [].
 Proof.
-  intros Hd H. apply (parse_bad ops orc cf) in H as [H1 H2]; [|exact Hd].
+  intros Hlaw Hd H. apply (parse_bad ops orc cf) in H as [H1 H2]; [|exact Hlaw|exact Hd].
   destruct s, s'. unfold dev in H1. cbn in *. injection H1 as -> -> -> -> ->. subst. reflexivity.
 Qed.
 
@@ -262,7 +262,7 @@ Theorem h_offset_good s e args s' body : h_offset orc cf s e args = (s', RGood b
     floats orc toks = Some xs /\ nth_error (s_servos s) i = Some sv /\
     set_offsets (sv_offs sv) xs = Some offs' /\
     s' = set_last (set_servo s i (mk_servo (sv_mode sv) (sv_future sv) (sv_coords sv) (sv_cmd sv) offs'
-                                           (sv_last sv) (sv_timer sv) (sv_alias sv))) (e_now e).
+                                           (sv_last sv) (sv_timer sv) (sv_alias sv) (sv_trk sv))) (e_now e).
 Proof.
   unfold h_offset, bad. destruct args as [|sid [|t0 toks]]; try discriminate.
   destruct (find_servo sid 0 (c_servos cf)) as [[i sc]|] eqn:Hf; [|discriminate].
